@@ -132,10 +132,23 @@ func (n seq) NumVariants() int {
 	num := 1
 
 	for i := range n {
-		num *= n[i].NumVariants()
+		num = mulNumVariants(num, n[i].NumVariants())
 	}
 
 	return num
+}
+
+// numVariantsCap is the largest number of variants reported, well above
+// maxExpandedPatterns. Counts saturate there so that the product of many
+// groups cannot overflow and wrap around to a small number which would
+// pass the maxExpandedPatterns check.
+const numVariantsCap = 1 << 30
+
+func mulNumVariants(a, b int) int {
+	if b != 0 && a > numVariantsCap/b {
+		return numVariantsCap
+	}
+	return a * b
 }
 
 func (n seq) InitialVariant() (variantState, int) {
@@ -275,6 +288,9 @@ func (n alt) NumVariants() int {
 
 	for i := range n {
 		num += n[i].NumVariants()
+		if num > numVariantsCap {
+			num = numVariantsCap
+		}
 	}
 
 	return num
